@@ -563,6 +563,7 @@ def peer_job(args: tuple[Any, ...]) -> dict[str, Any]:
     # the wall clock moves by this much before every frame of the device (a time request is answered with the reading at that moment,
     # also long after the session was established, also after the clock was set back)
     clock_step = float(args[6]) if len(args) > 6 and args[6] else 0.0
+    cut = int(args[7]) if len(args) > 7 and args[7] else 0  # all frames in one stream, delivered in two reads cut at this byte offset
     _world.RECYCLE_RX[0] = recycle
     out: dict[str, Any] = {"evals": 1, "viol": []}
     try:
@@ -570,18 +571,22 @@ def peer_job(args: tuple[Any, ...]) -> dict[str, Any]:
     finally:
         _world.RECYCLE_RX[0] = False
     try:
-        out = _peer_run(w, probe, noise, seq, one_chunk, recycle, clock_step)
+        out = _peer_run(w, probe, noise, seq, one_chunk, recycle, clock_step, cut)
     finally:
         w.close()
     for v in out["viol"]:
-        v.update(debug=bool(_world.DEFAULT_DEBUG[0]), recycle=recycle, clock_step=clock_step)
+        v.update(debug=bool(_world.DEFAULT_DEBUG[0]), recycle=recycle, clock_step=clock_step, cut=cut)
+        if cut:
+            v["key"] += f":cut{cut}"
+            v["clause"] += f" [one stream, two reads cut at byte {cut}]"
         if clock_step:
             v["key"] += f":clock{clock_step:+g}"
             v["clause"] += f" [wall clock moves {clock_step:+g} s before every frame]"
     return out
 
 
-def _peer_run(w: ConnWorld, probe: Probe, noise: bool, seq: tuple[str, ...], one_chunk: bool, recycle: bool, clock_step: float) -> dict[str, Any]:
+def _peer_run(w: ConnWorld, probe: Probe, noise: bool, seq: tuple[str, ...], one_chunk: bool, recycle: bool, clock_step: float,
+              cut: int = 0) -> dict[str, Any]:
     from .. import world as _world
 
     out: dict[str, Any] = {"evals": 1, "viol": []}
@@ -597,6 +602,16 @@ def _peer_run(w: ConnWorld, probe: Probe, noise: bool, seq: tuple[str, ...], one
                 if w.sock is None or w.sock.closed:
                     break
                 w.io_chunk(w.sock, blob[i : i + 3])
+                w.drain()
+        elif cut:
+            blob = b"".join(frames)
+            if cut >= len(blob):
+                out["evals"] = 0
+                return out
+            for part in (blob[:cut], blob[cut:]):
+                if w.sock is None or w.sock.closed:
+                    break
+                w.io_chunk(w.sock, part)
                 w.drain()
         elif one_chunk:
             _world.WALL[0] += clock_step
@@ -628,7 +643,13 @@ def _peer_run(w: ConnWorld, probe: Probe, noise: bool, seq: tuple[str, ...], one
             if a == "DR":
                 closed = True
         ids = env.proto_ids()
-        sent = w.sent_frames()[n0:]
+        try:
+            sent = w.sent_frames()[n0:]
+        except Exception as e:  # noqa: BLE001
+            key = f"peer:{'noise' if noise else 'plain'}:{'+'.join(seq)}:unreadable"
+            out["viol"].append({"key": key, "clause": f"C12:peer:device sent {list(seq)}; what the client wrote cannot be read back as consecutive frames "
+                                f"({type(e).__name__}: a reply was lost, reordered or mangled)", "noise": noise, "seq": list(seq), "one_chunk": one_chunk})
+            return out
         got = [ids.get(t, str(t)) for t, _ in sent]
         key = f"peer:{'noise' if noise else 'plain'}{':debug' if _world.DEFAULT_DEBUG[0] else ''}{':recycled-rx' if recycle else ''}:{'+'.join(seq)}:{'one-chunk' if one_chunk else 'separate'}"
         if got != exp:
@@ -692,6 +713,7 @@ def run(tier: str, seed: int) -> Result:
     jobs_c += [(noise, s, True, False, False, tz) for noise in (False, True) for s in seqs if len(s) <= 2 and "TR" in s for tz in ("XYZ5", "ABC-9:30")]
     jobs_c += [(noise, s, oc, False, False, None, step) for noise in (False, True) for s in seqs if len(s) <= 3 and "TR" in s
                for oc in (False, True) for step in (3600.5, -86400.0)]
+    jobs_c += [(noise, s, True, False, False, None, 0.0, c) for noise in (False, True) for s in seqs if len(s) <= 2 for c in range(1, 12 if not noise else 56)]
     jobs_b2 = [(3, p, 25) for p in range(25)]
     jobs_c2: list[tuple[bool, bool, tuple[str, ...], bool]] = []
     for noise in (False, True):
@@ -797,7 +819,7 @@ def replay(rp: dict[str, Any]) -> bool:
         print("->", [v["clause"] for v in bad] or "holds")
         return not bad
     if "seq" in d:
-        o = peer_job((d["noise"], tuple(d["seq"]), d["one_chunk"], d.get("debug", False), d.get("recycle", False), d.get("tz"), d.get("clock_step", 0.0)))
+        o = peer_job((d["noise"], tuple(d["seq"]), d["one_chunk"], d.get("debug", False), d.get("recycle", False), d.get("tz"), d.get("clock_step", 0.0), d.get("cut", 0)))
         print("->", o["viol"])
         return not o["viol"]
     if "type" in d:
